@@ -565,6 +565,14 @@ impl Sim {
                     }
                 }
             }
+            Step::MarkerReinsert { slot } => {
+                if let Some(e) = self.slot_ent(*slot) {
+                    if self.replicated(e) {
+                        self.server.world_mut().entity_mut(e).insert(Replicated);
+                        self.stats.probe("marker_reinserted");
+                    }
+                }
+            }
             Step::Insert { slot, kind, extra } => {
                 if let Some(e) = self.slot_ent(*slot) {
                     if !kind.is_entity() {
